@@ -137,7 +137,8 @@ def is_iterable(obj: Any) -> bool:
 
     :param obj: The object to check.
     """
-    return hasattr(obj, "__iter__") and not isinstance(
+    # looked up on the class, as iter() does: asking the instance would call a user's catch-all __getattr__
+    return hasattr(type(obj), "__iter__") and not isinstance(
         obj, (str, type, bytes, bytearray)
     )
 
